@@ -338,6 +338,44 @@ static void wrappers(uint64_t N, unsigned reps) {
       vec_znx_automorphism(mod, qo, b.p, size, b.sl, b.p, size, b.sl);
       for (uint64_t l = 0; l < size; l++)
         if (cmp_i(zvec_limb(&b, l), zvec_limb(&c, l), N, &at)) viol("oracle", "vec_znx_automorphism in place != out of place: limb %" PRIu64, l);
+      // in place with different limb counts: the buffer holds max(res_size, a_size) live limbs; the result must be
+      // the map applied to the first a_size limbs, zero-extended / truncated to res_size (same as out of place)
+      for (int variant = 0; variant < 2; variant++) {
+        const uint64_t as2 = 1 + (uint64_t)rng_range(r, 0, 2), rs2 = (uint64_t)rng_range(r, 0, 3);
+        if (as2 == rs2) continue;
+        const uint64_t lim = as2 > rs2 ? as2 : rs2;
+        zvec_t x, y;
+        zvec_alloc(&x, N, lim, sl, 8);
+        zvec_alloc(&y, N, rs2, N + 1, 24);
+        for (uint64_t l = 0; l < lim; l++)
+          for (uint64_t i = 0; i < N; i++) zvec_limb(&x, l)[i] = (int64_t)(l * N + i + 1) * (variant ? -1 : 1);
+        zvec_prefill(&y, 3, rep);
+        const int64_t pp = variant ? po : p;
+        if (variant) {
+          vec_znx_automorphism(mod, pp, y.p, rs2, y.sl, x.p, as2, x.sl);
+          vec_znx_automorphism(mod, pp, x.p, rs2, x.sl, x.p, as2, x.sl);
+        } else {
+          vec_znx_rotate(mod, pp, y.p, rs2, y.sl, x.p, as2, x.sl);
+          vec_znx_rotate(mod, pp, x.p, rs2, x.sl, x.p, as2, x.sl);
+        }
+        for (uint64_t l = 0; l < rs2; l++) {
+          if (cmp_i(zvec_limb(&x, l), zvec_limb(&y, l), N, &at)) viol("oracle", "%s in place (res_size=%" PRIu64 " a_size=%" PRIu64 ") != out of place: limb %" PRIu64 " p=%" PRId64, variant ? "vec_znx_automorphism" : "vec_znx_rotate", rs2, as2, l, pp);
+          // and the out-of-place result is the definition
+          if (l < as2) {
+            int64_t* src = malloc(N * 8);
+            for (uint64_t i = 0; i < N; i++) src[i] = (int64_t)(l * N + i + 1) * (variant ? -1 : 1);
+            if (variant) oracle_auto(N, pp, src, exp); else oracle_rotate(N, pp, src, exp);
+            free(src);
+          } else
+            memset(exp, 0, N * 8);
+          if (cmp_i(zvec_limb(&y, l), exp, N, &at)) viol("oracle", "%s (res_size=%" PRIu64 " a_size=%" PRIu64 "): limb %" PRIu64 " is not the zero-extended map", variant ? "vec_znx_automorphism" : "vec_znx_rotate", rs2, as2, l);
+        }
+        if (zvec_check(&x, msg, sizeof msg) || zvec_check(&y, msg, sizeof msg)) viol("canary", "%s", msg);
+        zvec_free(&x);
+        zvec_free(&y);
+        cnt("wrapper_calls", 2);
+        cnt("inplace_unequal_size_calls", 1);
+      }
       if (zvec_check(&a, msg, sizeof msg) || zvec_check(&b, msg, sizeof msg) || zvec_check(&c, msg, sizeof msg)) viol("canary", "%s", msg);
       cnt("wrapper_calls", 6);
       // big variants (FFT64 only: big ops do not exist on NTT120 modules)
